@@ -12,12 +12,15 @@ PROP="$(python3 -c "import json;print(json.load(open('$SD/meta.json'))['property
 # on the repaired tree some seeded changes surface under another property (see meta.json note)
 CHECK="$(python3 -c "import json;m=json.load(open('$SD/meta.json'));print(m.get('check_with',m['property']))")"
 WT="$(mktemp -d /tmp/seedwt.XXXXXX)"; rmdir "$WT"
-git -C /repo worktree add -q --detach "$WT" HEAD || exit 2
+# meta.json "check_on_base": true — a later repair of /repo has removed the very code the change touched (or made the same slip
+# harmless): the change is then checked against the commit it was written for, with its original patch
+BASE_REV="$(python3 -c "import json;m=json.load(open('$SD/meta.json'));print(m['base_commit'] if m.get('check_on_base') else 'HEAD')")"
+git -C /repo worktree add -q --detach "$WT" "$BASE_REV" || exit 2
 cleanup() { git -C /repo worktree remove --force "$WT" >/dev/null 2>&1; rm -rf "$WT"; }
 trap cleanup EXIT
 # SEEDCHECK_SKIP_CONFIRM=1: the change was confirmed when it was stored (meta.json: confirmed_by_me); only apply it and run the check
 if [ "${SEEDCHECK_SKIP_CONFIRM:-}" = 1 ]; then
-  PATCH="$SD/patch.diff"; [ -f "$SD/patch-rebased.diff" ] && PATCH="$SD/patch-rebased.diff"
+  PATCH="$SD/patch.diff"; [ -f "$SD/patch-rebased.diff" ] && [ "$BASE_REV" = HEAD ] && PATCH="$SD/patch-rebased.diff"
   git -C "$WT" apply "$PATCH" || { echo "SEED $PROP: patch does not apply"; exit 2; }
   (cd "$WT" && go build ./...) || { echo "SEED $PROP: does not build"; exit 2; }
   out="$(VERIF_REPO="$WT" "$VHOME/simctl" check "$CHECK" --tier "${SEED_TIER:-quick}" "$@" 2>&1)"; rc=$?
@@ -40,7 +43,7 @@ cp "$DEMO" "$WT/"
 without="$(cd "$WT" && go test -vet=off -count=1 $RACE -run "^($DEMONAME)\$" . 2>&1 | tail -1)"
 PATCH="$SD/patch.diff"
 # a later repair of /repo may have rewritten the very lines a seeded change touches: a hand-rebased equivalent is used then
-[ -f "$SD/patch-rebased.diff" ] && PATCH="$SD/patch-rebased.diff"
+[ -f "$SD/patch-rebased.diff" ] && [ "$BASE_REV" = HEAD ] && PATCH="$SD/patch-rebased.diff"
 git -C "$WT" apply "$PATCH" || { echo "SEED $PROP: patch does not apply"; exit 2; }
 (cd "$WT" && go build ./...) || { echo "SEED $PROP: does not build"; exit 2; }
 rm -f "$WT/$(basename "$DEMO")"
